@@ -190,6 +190,7 @@ class _Walker:
         self.local_funcs: Dict[str, Func] = dict(f.nested)
         self.globals_declared: Set[str] = set()
         self.container_locals: Set[str] = set()
+        self.field_vals: Dict[Tuple[Origin, str], Set[Origin]] = {}
         self.selfname = f.positional[0] if (f.cls is not None and f.outer is None and not f.is_static
                                            and f.positional) else None
 
@@ -284,6 +285,9 @@ class _Walker:
     def x_Attribute(self, e):
         base = self.expr(e.value)
         out = self.load_from(base)
+        if isinstance(e.ctx, ast.Load):
+            for o in base:
+                out |= self.field_vals.get((o, e.attr), set())
         # property getters may have effects and return something else
         for m in self.eng._props.get(e.attr, []):
             if isinstance(e.ctx, ast.Load):
@@ -459,6 +463,9 @@ class _Walker:
             vals = set()
             for a in args + list(kwargs.values()):
                 vals |= self.load_from(a)
+            if short == 'copy' and isinstance(e.func, ast.Attribute) and not e.args:
+                # x.copy(): a new container holding the receiver's elements (shallow)
+                vals |= self.load_from(recv_o)
             self.put_into({o}, vals)
             return {o}
         if isinstance(e.func, ast.Attribute) and short == 'items':
@@ -595,6 +602,10 @@ class _Walker:
             base = self.expr(target.value)
             for o in base:
                 self.effect(o, target.attr, target)
+                if o[0] not in ('fresh', 'const'):
+                    # what this function itself parks in a field of an object it was handed (self.x = param.y) is what a
+                    # later read of that field, in this function, may hand back: an alias of the caller's object
+                    self.field_vals.setdefault((o, target.attr), set()).update(v for v in origins if v not in (CONST, o))
             self.put_into(base, origins)
             # property setters
             for m in self.eng._setters.get(target.attr, []):
